@@ -80,9 +80,10 @@ impl Property for C11 {
         false
     }
 
-    fn run_case(&self, k: u64, rng: &mut Rng, _env: &Env, mon: &mut Monitor) {
+    fn run_case(&self, k: u64, rng: &mut Rng, env: &Env, mon: &mut Monitor) {
         let regime = if rng.chance(5, 6) { Regime::D } else { Regime::R };
-        let n = 1 + rng.usize_below(if k % 5 == 0 { 12 } else { 6 });
+        let big = if env.tier == Tier::Thorough { 16 } else { 12 };
+        let n = 1 + rng.usize_below(if k % 5 == 0 { big } else { 6 });
         let ids = id_pool(rng, n, true);
         let mut inst = v1::Instance::default();
         for id in &ids {
@@ -192,7 +193,7 @@ impl Property for C11 {
                     return;
                 }
             }
-            if exact_mode && ids.len() <= 12 {
+            if exact_mode && ids.len() <= 16 {
                 let mut all_ids: Vec<u64> = inst.decision_variables.iter().map(|v| v.id).collect();
                 all_ids.sort_unstable();
                 if let Some((ones, why)) = brute_force(&expected, got, &all_ids) {
